@@ -20,6 +20,7 @@ PINS = {
     "C08": ["Boards", "WireMaps", "PadMaps"],
     "C09": ["Boards", "WireMaps", "PadMaps", "Calib"],
     "C10": ["Boards", "WireMaps", "PadMaps", "Calib"],
+    "C13": ["PadMaps"],
     "C11": ["Boards", "WireMaps", "PadMaps", "Calib"],
     "C18": ["Drift"],
 }
@@ -50,7 +51,11 @@ def compare(pid):
     for name in PINS.get(pid, []):
         cur_p = os.path.join(GEN, name + ".v")
         pin_p = os.path.join(PIN, name + ".v.gz")
-        if not os.path.exists(pin_p) or not os.path.exists(cur_p):
+        if not os.path.exists(pin_p):
+            diffs.append("pinned/%s.v.gz is missing (the configuration pin cannot be checked)" % name)
+            continue
+        if not os.path.exists(cur_p):
+            diffs.append("Gen/%s.v was not regenerated" % name)
             continue
         cur = open(cur_p).read()
         old = gzip.open(pin_p, "rt").read()
